@@ -94,6 +94,14 @@ def eval_pred(e, env, module):
         return any(vals) if e.func.id == 'any' else all(vals)
     if isinstance(e, ast.Subscript) and isinstance(e.slice, ast.Constant):
         return eval_pred(e.value, env, module)[e.slice.value]
+    if isinstance(e, ast.Subscript) and isinstance(e.slice, ast.Slice):
+        lo = eval_pred(e.slice.lower, env, module) if e.slice.lower is not None else None
+        hi = eval_pred(e.slice.upper, env, module) if e.slice.upper is not None else None
+        return eval_pred(e.value, env, module)[lo:hi]
+    if isinstance(e, ast.Subscript):
+        return eval_pred(e.value, env, module)[eval_pred(e.slice, env, module)]
+    if isinstance(e, ast.UnaryOp) and isinstance(e.op, ast.USub):
+        return -eval_pred(e.operand, env, module)
     if isinstance(e, ast.Attribute) and isinstance(e.value, ast.Name) and module.imports.get(e.value.id, '') == 're' and \
             e.attr.isupper():
         return getattr(re, e.attr)
